@@ -554,3 +554,106 @@ func H_C04_update_view() {
 	k, f := c05Instance(instance())
 	rhC05Run(k, f, []int{1, 1})
 }
+
+// ---- a dropped ignore-failure update leaves nothing behind, not even ownership ----
+
+var dropFams = [...]int{famMemLimit, famMemReservation, famMemSwap, famMemKernel, famMemKernelTcp, famMemSwappiness,
+	famMemDisableOom, famMemUseHierarchy, famCpuShares, famCpuQuota, famCpuPeriod, famCpuRtRuntime, famCpuRtPeriod,
+	famCpuCpus, famCpuMems, famBlockio, famRdt, famHugepage, famUnified}
+
+func oneItem(f int) []sItem {
+	it := sItem{key: nondetString(), val: nondetString(), num: nondetInt64()}
+	if f == famCpuCpus || f == famCpuMems {
+		assume(it.val != "")
+	}
+	return []sItem{it}
+}
+
+// H_C05_dropped_update_leaves_no_claim: plugin A sets the pids limit of container t; plugin B sends an
+// ignore-failure update of t that sets field f (one of 19: every scalar resource field, a hugepage limit, a
+// unified key) and the pids limit - it conflicts and is dropped in its entirety; then B again or a third plugin
+// sets f on t. That last update must succeed (nobody set f), and the entry for t carries A's pids limit and
+// the last update's f. B's response also carries a second update, of another container, after the dropped
+// one: it is collected as usual. All three request kinds.
+//verif:property C05
+//verif:instances 19
+//verif:expect-cover done
+func H_C05_dropped_update_leaves_no_claim() {
+	f := dropFams[instance()]
+	shape("fam=" + famNames[f])
+	kind := choose(3)
+	shape("req=" + reqNames[kind])
+	r, own := symUpdateResult(kind, f, 0)
+	ps := symPlugins(3)
+	t := nondetString()
+	assume(t != own) // the own container of create/update requests is handled by the fold harnesses
+	pidsA, pidsB := nondetInt64(), nondetInt64()
+	uA := &ContainerUpdate{ContainerId: t, Linux: &LinuxContainerUpdate{Resources: &LinuxResources{Pids: &api.LinuxPids{Limit: pidsA}}}}
+	err := r.apply(wrapUpdates(kind, []*ContainerUpdate{uA}), ps[0])
+	vassert(err == nil, "first-update-rejected")
+	resB := buildResources(f, oneItem(f))
+	resB.Pids = &api.LinuxPids{Limit: pidsB}
+	uB := &ContainerUpdate{ContainerId: t, Linux: &LinuxContainerUpdate{Resources: resB}, IgnoreFailure: true}
+	// the same response carries a second, unrelated update (of another container): it must not be lost
+	t2, pids2 := nondetString(), nondetInt64()
+	assume(t2 != own)
+	assume(t2 != t)
+	uB2 := &ContainerUpdate{ContainerId: t2, Linux: &LinuxContainerUpdate{Resources: &LinuxResources{Pids: &api.LinuxPids{Limit: pids2}}}}
+	err = r.apply(wrapUpdates(kind, []*ContainerUpdate{uB, uB2}), ps[1])
+	vassert(err == nil, "ignored-failure-failed-the-request")
+	last := oneItem(f)
+	resC := buildResources(f, last)
+	uC := &ContainerUpdate{ContainerId: t, Linux: &LinuxContainerUpdate{Resources: resC}}
+	err = r.apply(wrapUpdates(kind, []*ContainerUpdate{uC}), ps[1+choose(2)])
+	vassert(err == nil, "dropped-update-left-a-claim-behind")
+	if err != nil {
+		return
+	}
+	var got []*ContainerUpdate
+	switch kind {
+	case reqCreate:
+		got = r.createContainerResponse().Update
+	case reqUpdate:
+		got = r.updateContainerResponse().Update
+	default:
+		got = r.stopContainerResponse().Update
+	}
+	var en, en2 *ContainerUpdate
+	for _, u := range got {
+		if u != nil && u.ContainerId == t { // (the untouched own container of an update request is a nil placeholder)
+			vassert(en == nil, "one-entry-per-target")
+			en = u
+		}
+		if u != nil && u.ContainerId == t2 {
+			vassert(en2 == nil, "one-entry-per-target")
+			en2 = u
+		}
+	}
+	vassert(en2 != nil && en2.Linux != nil && en2.Linux.Resources != nil && en2.Linux.Resources.Pids != nil &&
+		en2.Linux.Resources.Pids.Limit == pids2, "update-after-a-dropped-one-lost")
+	vassert(en != nil && en.Linux != nil && en.Linux.Resources != nil, "entry-missing")
+	if en == nil || en.Linux == nil || en.Linux.Resources == nil {
+		return
+	}
+	res := en.Linux.Resources
+	vassert(res.Pids != nil && res.Pids.Limit == pidsA, "value-of-the-dropped-update-applied")
+	want := buildResources(f, last)
+	switch f {
+	case famHugepage:
+		vassert(len(res.HugepageLimits) == 1 && res.HugepageLimits[0].PageSize == want.HugepageLimits[0].PageSize &&
+			res.HugepageLimits[0].Limit == want.HugepageLimits[0].Limit, "field-of-the-last-update")
+	case famUnified:
+		vassert(len(res.Unified) == 1, "field-of-the-last-update")
+		for k, v := range want.Unified {
+			g, ok := res.Unified[k]
+			vassert(ok && g == v, "field-of-the-last-update")
+		}
+	default:
+		g, w := getField(res, f), getField(want, f)
+		vassert(g.present == w.present, "field-of-the-last-update")
+		if g.present && w.present {
+			vassert(g.num == w.num && g.str == w.str, "field-of-the-last-update")
+		}
+	}
+	cover("done")
+}
